@@ -23,7 +23,7 @@ const prop = "C18"
 
 func TestMain(m *testing.M) {
 	vkit.Rec(prop).SetLevel("exploration",
-		"start orders: every distinct permutation of the operation multiset {ingress x k (distinct counting conns), accept x m, close x 1-2, parent-context cancel x 0-1[, ingress-listener feeding p conns]} for k,m <= 2 (quick) / <= 3 (thorough), each operation started in its own goroutine once the previous one has finished or blocked; plus rapid-generated stress runs (8-64 goroutines, up to 2000 conns, random yields, several closes). Oracle at quiescence: each conn returned by exactly one accept xor closed by the listener, every close returned, no panic, accepts started after a completed close report closed; race detector on. Non-trivial = an order in which a close or cancel starts while an ingress is blocked or between an ingress and its accept; distinct = the start order.")
+		"start orders: every distinct permutation of the operation multiset {ingress x k (distinct counting conns), accept x m, close x 1-2, parent-context cancel x 0-1[, ingress-listener feeding p conns]} for k,m <= 2 (quick) / <= 3 (thorough), each operation started in its own goroutine once the previous one has finished or blocked (repeated with different subsets of the conns being ingressed together with a non-nil error); plus rapid-generated stress runs (8-64 goroutines, up to 2000 conns, random yields, several closes). Oracle at quiescence: each conn returned by exactly one accept xor closed by the listener, every close returned, no panic, accepts started after a completed close report closed; race detector on. Non-trivial = an order in which a close or cancel starts while an ingress is blocked or between an ingress and its accept; distinct = the start order.")
 	vkit.Rec(prop).Assume("only non-nil conns are ingressed (documented caller precondition)", "the harness owns start orders, not every interleaving inside the listener")
 	vkit.Main(m)
 }
@@ -32,6 +32,7 @@ type cconn struct {
 	id        int
 	closes    atomic.Int64
 	handedOut atomic.Bool // for conns behind an ingress-listener: taken by the listener's goroutine
+	withErr   bool        // ingressed together with a non-nil error
 }
 
 func (c *cconn) Read([]byte) (int, error)         { return 0, errors.New("stub") }
@@ -111,7 +112,11 @@ func runImpl(t vkit.TB, order []string, grace time.Duration, conns map[int]*ccon
 			case op[0] == 'i':
 				var id int
 				fmt.Sscanf(op[1:], "%d", &id)
-				l.IngressConn(conns[id], nil)
+				var ierr error
+				if conns[id].withErr {
+					ierr = errors.New("error that travels with the connection")
+				}
+				l.IngressConn(conns[id], ierr)
 			case op == "L":
 				_ = l.IngressListener(&fakeListener{conns: []*cconn{conns[100], conns[101]}})
 			case op == "a":
@@ -262,13 +267,15 @@ func wasIngressed(order []string, id int, c *cconn) bool {
 	return false
 }
 
-func newConns(order []string) map[int]*cconn {
+// newConns: in variant v, conn i is ingressed together with a non-nil error when
+// (v+i) is odd (IngressConn passes conn and error through as a pair).
+func newConns(order []string, v int) map[int]*cconn {
 	m := map[int]*cconn{}
 	for _, o := range order {
 		if o[0] == 'i' {
 			var id int
 			fmt.Sscanf(o[1:], "%d", &id)
-			m[id] = &cconn{id: id}
+			m[id] = &cconn{id: id, withErr: (v+id)%2 == 1}
 		}
 		if o == "L" {
 			m[100], m[101] = &cconn{id: 100}, &cconn{id: 101}
@@ -300,10 +307,13 @@ func perms(items []string) [][]string {
 	return out
 }
 
-func runOne(t vkit.TB, order []string, class string) bool {
+func runOne(t vkit.TB, order []string, class string, variant int) bool {
 	rec := vkit.Rec(prop)
 	grace := 1500 * time.Microsecond
-	v, detail, nontrivial := runOrder(t, order, grace)
+	v, detail, nontrivial := runOrder(t, order, grace, variant)
+	if detail != nil {
+		detail["conns_ingressed_with_an_error"] = fmt.Sprintf("those with (id+%d) odd", variant)
+	}
 	rec.Case(class, strings.Join(order, ","), nontrivial > 0, func() any { return map[string]any{"start_order": order} })
 	if v != "" {
 		vkit.Violate(t, prop, "C18/"+v, fmt.Sprintf("start order %v: %s", order, v), detail)
@@ -353,7 +363,7 @@ func TestEnum_StartOrders(t *testing.T) {
 								if idx%shards != shard {
 									continue
 								}
-								if !runOne(t, order, fmt.Sprintf("orders/k%d-m%d-c%d-x%d-L%d", k, m, closes, cancels, lst)) {
+								if !runOne(t, order, fmt.Sprintf("orders/k%d-m%d-c%d-x%d-L%d", k, m, closes, cancels, lst), r) {
 									return
 								}
 							}
@@ -379,7 +389,7 @@ func TestEnum_StartOrders(t *testing.T) {
 				if idx%shards != shard {
 					continue
 				}
-				if !runOne(t, order, fmt.Sprintf("orders/k3-m3-c1-x%d", cancels)) {
+				if !runOne(t, order, fmt.Sprintf("orders/k3-m3-c1-x%d", cancels), idx) {
 					return
 				}
 			}
@@ -390,8 +400,8 @@ func TestEnum_StartOrders(t *testing.T) {
 }
 
 // runOrder wires fresh conns into run().
-func runOrder(t vkit.TB, order []string, grace time.Duration) (string, map[string]any, int) {
-	return runImpl(t, order, grace, newConns(order))
+func runOrder(t vkit.TB, order []string, grace time.Duration, variant int) (string, map[string]any, int) {
+	return runImpl(t, order, grace, newConns(order, variant))
 }
 
 func TestProp_Stress(t *testing.T) {
@@ -434,7 +444,11 @@ func TestProp_Stress(t *testing.T) {
 					if i%3 == 0 {
 						runtime.Gosched()
 					}
-					l.IngressConn(c, nil)
+					var ierr error
+					if c.id%3 == 1 {
+						ierr = errors.New("error that travels with the connection")
+					}
+					l.IngressConn(c, ierr)
 				}
 			})
 		}
@@ -445,8 +459,12 @@ func TestProp_Stress(t *testing.T) {
 			go guard(func() {
 				for {
 					c, err := l.Accept()
-					if err != nil {
-						return
+					if c == nil {
+						// (an error that travels WITH a conn is not the end of the listener)
+						if err != nil {
+							return
+						}
+						continue
 					}
 					if cc, ok := c.(*cconn); ok {
 						mu.Lock()
